@@ -5,7 +5,42 @@
 // Standard library only; the packages of /repo are parsed and TYPE-CHECKED exactly as tools/errfacts does (go/types,
 // module packages from source with the overlay applied, everything else through the offline "source" importer).
 //
-// For EVERY function declared in a fixed list of files it emits
+// EVERYTHING a row says about the source is a go/types IDENTITY (canon.go, shared verbatim with tools/orderfacts and
+// tools/errfacts), never the spelling of a local variable, a receiver, a parameter or an import alias, and never a position
+// (the `line` / `leakLines` columns excepted, which are information for the reader and used by no theorem):
+//
+//	callee / handedTo / failing steps   canon.callee: pkg.Func with the package by module-relative / import path
+//	                ("recordio/proto.NewReader", "github.com/ncw/directio.OpenFile"), <type of the root variable>.<field path>.
+//	                Method for methods and func-typed fields ("sstables.SSTableStreamWriter.Open",
+//	                "wal.Appender.walOptions.writerFactory"); a renamed PRIVATE function keeps the name the specification
+//	                knows (canon.go: privateSigs / resolveFunc) — also in the `fn` column and in "via <fn>"
+//	places (bound, storedIn, joinedVia) the field path under the TYPE of its root ("sstables.SSTableStreamWriter.indexWriter",
+//	                "simpledb.SSTableManager.allSSTableReaders[]"); `bound` of a value that a local receives: the field(s) of
+//	                local objects / slots of local collections the value is put into if there are any
+//	                ("sstables.SSTableReader.index"), else the local's type
+//	conditions      canon.cond: errNonNil / errNil, nonNil(x) / isNil(x), isSentinel(S), comparisons by == and <, a local with
+//	                one definition replaced by its defining expression, other locals by their type; the else branch of `if X`
+//	                is the negation of X in the same normal form, so `if X {A} else {B}` and `if !X {B} else {A}` read alike;
+//	                nested conditions are joined by " && ", outermost first
+//	failing step    of an error return: THE CALL WHOSE ERROR THE RETURN REPORTS — the returned expression is followed through
+//	                wrappers (fmt.Errorf("…%w", err), errors.Join: pure calls whose only result is the error) and through the
+//	                error variable to the assignment(s) that can be the last one before the return (reaching definitions over
+//	                the structured control flow of the function: an assignment inside a branch that ends in continue / return
+//	                does not reach what follows the branch; "f | g" when several reach) — however the `if` around the return
+//	                is spelled; a function literal called in place: "func literal: <its own failing exits>"; only when there
+//	                is no such call (a sentinel, a fresh error) the canonical condition of the innermost enclosing if, else
+//	                "end".  The steps of a row are listed in the order in which they stand in the source.
+//
+// Pure / logging calls are recognised by WHAT is called (canon.pureCall), e.g. a log line between a goroutine's done signal
+// and its return does not count.  Helpers of the module are looked into ONE level where that decides a row: a call
+// `closeQuietly(x)` / `w.closeFiles()` whose body does X.Close() / X.Stop() on an operand unconditionally (nil check of X
+// aside) is a release; a method whose every return hands out a field of its receiver is an accessor, not an acquisition; the
+// function a `go` statement starts is found by the identity of the called object; condition helpers (`isEOF(err)`) are
+// inlined by canon.cond.  A helper that releases CONDITIONALLY is not taken for a release: the row then shows the value as
+// left open — visible, never silently accepted.
+//
+// For EVERY function declared in a fixed list of files (and for a REQUIRED function wherever in its package it is declared
+// now) it emits
 //
 //   - `acquisitions`: one row per call that hands out something that has to be given back — a call with a result whose type
 //     has Close() (os.Open/OpenFile/Create, directio.OpenFile, mmap.Open, the repo's own constructors and factories, index
@@ -28,16 +63,18 @@
 //     `return` of the function itself and the end of its body; `sites` = one "direct" per exit; a path that ends in
 //     log.Panicf & co. is not a normal exit); anything else: unknown
 //     closedOnAllPaths    Close()/Stop() is reached on every path, directly, inside a return expression, or by `defer`;
-//     `sites` lists the release sites in source order: direct | return | defer | deferGuarded(<cond>); a deferred literal
-//     whose body starts with `if X == nil { return }` guards the rest of its body by `X != nil`.  A value stored in a field
-//     of the receiver / a parameter that an EARLIER-registered deferred statement closes under `<named error result> != nil`
-//     only (the clean-up of a failing constructor / Open) is storedIn with that site and no `errAfterStore`
+//     `sites` lists the release sites in source order: direct | return | defer | deferGuarded(<cond>); in a deferred literal
+//     `if C { return }` (bare return) guards what follows it by !C, so `if err != nil { clean-up }` and
+//     `if err == nil { return }; clean-up` both read deferGuarded(errNonNil).  A value stored in a field of the receiver / a
+//     parameter that an EARLIER-registered deferred statement closes under `<named error result> != nil` only — decided on
+//     the structure of the guard and the identity of the variable, not on its text — (the clean-up of a failing constructor /
+//     Open) is storedIn with that site and no `errAfterStore`
 //   - `releases`: for every method named Close (plus SSTableManager.reflectCompactionResult and Appender.Rotate) one row per
 //     OWNED field of the receiver (closable type, channel, collection of such, pointer to a struct of this module that owns
 //     something): closedUnconditionally | closedInBranch "<cond>" | promoted (the type has no Close of its own, the embedded
 //     field's is promoted) | notClosed; `via` = the release operations in source order (Close, Stop, recv, close, send,
 //     prefixed with defer / deferGuarded(..)), `skippable`/`skippedBy` = an early return can leave the method before the
-//     field is released (the failing step; for a function literal called in place "func literal: <its failing exits>"),
+//     field is released (the failing step as above; for a function literal called in place "func literal: <its failing exits>"),
 //     `order` = rank of its first release site among the fields of the method.
 //
 // A tree that does not type-check or a REQUIRED function that is missing is an error (exit 1) unless --allow-missing.
@@ -137,14 +174,16 @@ func main() {
 	os.Setenv("GOFLAGS", "-mod=readonly")
 	os.Setenv("GOPROXY", "off")
 	l := &loader{repo: repo, root: root, mod: moduleOf(repo), pkgs: map[string]*types.Package{}, infos: map[string]*types.Info{},
-		files: map[string]map[string]*ast.File{}}
+		files: map[string]map[string]*ast.File{}, decls: map[*types.Func]*helperDecl{}}
 	l.src = importer.ForCompiler(fset, "source", nil).(types.ImporterFrom)
+	modPath = l.mod
 
 	type unit struct {
 		a    *analyzer
 		file string
 	}
 	var units []unit
+	declSeen := map[*ast.FuncDecl]bool{}
 	var fileFound []bool
 	fnNames := map[types.Object]string{}
 	var promoted []relRow
@@ -160,29 +199,12 @@ func main() {
 			continue
 		}
 		info := l.infos[path]
-		parents := map[ast.Node]ast.Node{}
-		var stack []ast.Node
-		ast.Inspect(f, func(n ast.Node) bool {
-			if n == nil {
-				stack = stack[:len(stack)-1]
-				return true
-			}
-			if len(stack) > 0 {
-				parents[n] = stack[len(stack)-1]
-			}
-			stack = append(stack, n)
-			return true
-		})
-		pkgFns := map[string]*ast.FuncDecl{}
+		parents := parentsOf(f)
 		closeOf := map[string]bool{}
 		for _, pf := range l.files[path] {
 			for _, d := range pf.Decls {
-				if fd, ok := d.(*ast.FuncDecl); ok && fd.Body != nil {
-					if fd.Recv == nil {
-						pkgFns[fd.Name.Name] = fd
-					} else if fd.Name.Name == "Close" {
-						closeOf[recvName(fd)] = true
-					}
+				if fd, ok := d.(*ast.FuncDecl); ok && fd.Body != nil && fd.Recv != nil && fd.Name.Name == "Close" {
+					closeOf[recvName(fd)] = true
 				}
 			}
 		}
@@ -194,21 +216,8 @@ func main() {
 				if x.Body == nil {
 					continue
 				}
-				n := x.Name.Name
-				if r := recvName(x); r != "" {
-					n = r + "." + n
-					if qual {
-						n = pre + "." + n
-					}
-				} else {
-					n = pre + "." + n
-				}
-				a := &analyzer{info: info, parents: parents, fd: x, name: n, mod: l.mod, pkgFns: pkgFns, fnNames: fnNames}
-				a.computeAliases()
-				if o := info.Defs[x.Name]; o != nil {
-					fnNames[o] = n
-				}
-				units = append(units, unit{a, file})
+				units = append(units, unit{newUnit(l, info, parents, x, pre, fnNames), file})
+				declSeen[x] = true
 			case *ast.GenDecl:
 				// struct types that are closable only through an embedded field
 				for _, sp := range x.Specs {
@@ -253,6 +262,32 @@ func main() {
 				}
 			}
 		}
+	}
+
+	// a REQUIRED function that is not declared in one of the listed files any more (moved to another file of its package) is
+	// looked up by package + name — a private one that was renamed by its role (canon.go: resolveFunc) — and examined where
+	// it is now
+	for _, r := range required {
+		f, relPkg := resolveRequired(l, r)
+		if f == nil {
+			continue
+		}
+		h := l.lookup(f)
+		if h == nil || declSeen[h.fd] {
+			continue
+		}
+		path := l.mod + "/" + relPkg
+		for rel, pf := range l.files[path] {
+			if pf.Pos() <= h.fd.Pos() && h.fd.End() <= pf.End() {
+				pre := pkgPrefix(rel)
+				units = append(units, unit{newUnit(l, h.info, parentsOf(pf), h.fd, pre, fnNames), filepath.ToSlash(rel)})
+				declSeen[h.fd] = true
+				fmt.Fprintf(os.Stderr, "resfacts: note: %s is now declared in %s\n", r, filepath.ToSlash(rel))
+			}
+		}
+	}
+	for _, n := range l.renamed {
+		fmt.Fprintln(os.Stderr, "resfacts: note:", n, "(found by receiver + signature; its rows keep the old name)")
 	}
 
 	// acquisitions, with the "leaves resources behind in its receiver / parameter" set computed to a fixpoint
@@ -334,6 +369,88 @@ func main() {
 	if os.Getenv("RESFACTS_SUMMARY") != "" {
 		summary(fns)
 	}
+}
+
+var parentMaps = map[*ast.File]map[ast.Node]ast.Node{}
+
+func parentsOf(f *ast.File) map[ast.Node]ast.Node {
+	if m, ok := parentMaps[f]; ok {
+		return m
+	}
+	parents := map[ast.Node]ast.Node{}
+	var stack []ast.Node
+	ast.Inspect(f, func(n ast.Node) bool {
+		if n == nil {
+			stack = stack[:len(stack)-1]
+			return true
+		}
+		if len(stack) > 0 {
+			parents[n] = stack[len(stack)-1]
+		}
+		stack = append(stack, n)
+		return true
+	})
+	parentMaps[f] = parents
+	return parents
+}
+
+// the analyzer of one declaration.  Row name: <package prefix>.<func> / <Type>.<Method> (methods of recordio/proto:
+// rproto.<Type>.<Method>) — the function's name as the SPECIFICATION knows it (objName: a renamed private function keeps it)
+func newUnit(l *loader, info *types.Info, parents map[ast.Node]ast.Node, x *ast.FuncDecl, pre string, fnNames map[types.Object]string) *analyzer {
+	n := x.Name.Name
+	o := info.Defs[x.Name]
+	if o != nil {
+		n = objName(o)
+	}
+	if r := recvName(x); r != "" {
+		n = r + "." + n
+		if pre == "rproto" {
+			n = pre + "." + n
+		}
+	} else {
+		n = pre + "." + n
+	}
+	a := &analyzer{info: info, parents: parents, fd: x, name: n, mod: l.mod, fnNames: fnNames, lookup: l.lookup}
+	a.cn = newCanon(l.mod, info, x.Body, l.lookup) // one per declaration: rename-stable identities (canon.go)
+	a.computeAliases()
+	if o != nil {
+		fnNames[o] = n
+	}
+	return a
+}
+
+var prefixPkg = map[string]string{"recordio": "recordio", "rproto": "recordio/proto", "sstables": "sstables", "memstore": "memstore",
+	"wal": "wal", "simpledb": "simpledb"}
+
+// the function a name of `required` denotes, and the (module-relative) package it lives in
+func resolveRequired(l *loader, name string) (*types.Func, string) {
+	try := func(rel, spec string) *types.Func {
+		p := l.pkgs[l.mod+"/"+rel]
+		if p == nil {
+			return nil
+		}
+		f, _ := resolveFunc(l.mod, p, spec)
+		return f
+	}
+	if i := strings.Index(name, "."); i > 0 {
+		if rel, ok := prefixPkg[name[:i]]; ok {
+			if f := try(rel, name[i+1:]); f != nil {
+				return f, rel
+			}
+		}
+	}
+	seen := map[string]bool{}
+	for _, file := range files {
+		rel := filepath.ToSlash(filepath.Dir(file))
+		if seen[rel] || rel == "recordio/proto" { // methods of recordio/proto carry the rproto prefix
+			continue
+		}
+		seen[rel] = true
+		if f := try(rel, name); f != nil {
+			return f, rel
+		}
+	}
+	return nil, ""
 }
 
 func summary(fns []fnOut) {
